@@ -70,8 +70,8 @@ def run(ctx):
     n = ctx.n(400, 1500)
     for i in range(n):
         rng = ctx.rng()
-        T = int(rng.choice([1, 2, 3, 4, 5, 6, 8, 10]))
-        N = int(rng.integers(1, 31))
+        T = int(rng.choice([1, 2, 3, 4, 5, 6, 8, 10, 3, 6, 17, 40]))
+        N = int(rng.integers(1, 31)) if i % 25 else int(rng.integers(100, 400))
         rank = int(rng.choice([0, 1, 2]))
         d = int(rng.choice([2, 3]))
         cplx = bool(rng.random() < 0.45)
@@ -89,6 +89,12 @@ def run(ctx):
             ts = t0 + np.concatenate([[0], np.cumsum(inc)]) * int(rng.choice([1, 100]))
         dt = float(rng.choice([0.002, 0.005, 1.0]))
         A = make_series(rng, T, N, rank, d, cplx, kind, sym)
+        # the same values in other in-memory representations (read-only, strided view, Fortran order, integer-valued series)
+        lay = ["copy", "copy", "copy", "readonly", "strided", "fortran", "int"][(T * 5 + N * 3 + rank + i) % 7]
+        if lay == "int" and not cplx:
+            A = np.rint(3 * A).astype(np.int64)
+            if not (A[0] != 0).any():
+                A[0].flat[0] = 1
         snaps = Snapshots(nsnapshots=T, snapshots=[
             SingleSnapshot(timestep=int(t), nparticle=N, particle_type=np.ones(N, dtype=int), positions=np.zeros((N, d)),
                            boxlength=np.ones(d), boxbounds=np.zeros((d, 2)), realbounds=None, hmatrix=np.eye(d)) for t in ts])
@@ -100,7 +106,19 @@ def run(ctx):
               ("" if rank < 2 else ("/sym" if sym else "/general"))
         info = lambda: {"class": cls, "timesteps": ts, "dt": dt, "series": A if A.size <= 400 else "omitted", "kind": kind}  # noqa: E731
         key = f"time_correlation/rank{rank}/{'linear' if linear else 'log'}"
-        ok, res = ctx.call(key, time_correlation, snaps, A.copy(), dt, outfile, data=info)
+        Ain = A.copy()
+        if lay == "readonly":
+            Ain.setflags(write=False)
+        elif lay == "strided":
+            big = np.zeros((T, 2 * N + 1) + A.shape[2:], dtype=A.dtype)
+            big[:, 1::2] = A
+            Ain = big[:, 1::2]
+        elif lay == "fortran":
+            Ain = np.asfortranarray(A)
+        ok, res = ctx.call(key, time_correlation, snaps, Ain, dt, outfile, data=info)
+        ctx.count("layout_" + lay)
+        if ok:
+            ctx.check("input_untouched", np.array_equal(np.asarray(Ain), A), key + "/input_modified", "the series handed over was modified", info)
         ctx.case(cls, A, ts, nontrivial=T >= 3 and N >= 2,
                  sample={"shape": A.shape, "complex": cplx, "timesteps": ts, "dt": dt, "kind": kind})
         if not ok:
